@@ -42,10 +42,13 @@ UG = '_specifiers.forged_signature'
 UA_ = '_autoforwards.autoforwards_ast'
 UD = 'specifiers._AsForged.__get__'
 
-F_RESTORE = clause(UF, 'frame:attributes_restored', ['C16'], 'P')
+F_RESTORE = clause(UF, 'frame:attributes_restored', ['C16', 'C05', 'C06', 'C07'], 'P')      # the fallback reads __wrapped__ / __signature__ afterwards
 F_RAISES = clause(UF, 'raises:only_inspect_or_unknown', ['C07'], 'P')
 F_ASTPRE = clause(UF, 'pre:ast_is_function', ['C07'], 'P')
-G_FRAME = clause(UG, 'frame:attributes_restored', ['C16'], 'P')
+F_UA = clause(UF, 'post:own_annotations_resolve_in_own_globals', ['C11'], 'P',
+              'the signature handed to discovery carries, for every annotated parameter of the inspected function, a wrapper that denotes the annotation in THAT function\'s '
+              'globals under ITS compilation mode - whatever the function it wraps (__wrapped__) looks like')
+G_FRAME = clause(UG, 'frame:attributes_restored', ['C16', 'C05', 'C06', 'C07'], 'P')
 G_FORGER = clause(UG, 'raises:forger_errors_surface', ['C07', 'C04'], 'P')
 G_SUBSET = clause(UG, 'raises:subset_of_inspect', ['C07'], 'P')
 G_UP = clause(UG, 'post:upgraded', ['C07', 'C15'], 'P')
@@ -80,7 +83,7 @@ PA_COMP = clause(UPA, 'post:looks_through_the_partial', ['C19'], 'P',
 UT = '_specifiers.forged_signature (termination)'
 T_REC = clause(UT, 'rt:cyclic_forwarding_graph_terminates', ['C07'], 'R',
                'runtime contract on two concrete programs: a function forwarding to itself, and a two-function cycle')
-D_GUARD = clause(UD, 'frame:guard_restored', ['C16'], 'P')
+D_GUARD = clause(UD, 'frame:guard_restored', ['C16', 'C13'], 'P')
 D_ATTR = clause(UD, 'raises:AttributeError_iff_computing', ['C16', 'C13'], 'P')
 
 DEF_SHAPES = [(0, 1, 1, 0, 1), (0, 1, 0, 0, 0), (0, 0, 0, 0, 1)]
@@ -134,6 +137,8 @@ def make_runner(mode, shape=DEF_SHAPES[0], node='FunctionDef', kind='function', 
     msp = I.module('sigtools._specifiers')
 
     def run(ctx, r):
+        objects.CURRENT_INTERP[0] = I
+
         def choose(name):
             if name in variant:
                 return bool(variant[name])
@@ -145,7 +150,8 @@ def make_runner(mode, shape=DEF_SHAPES[0], node='FunctionDef', kind='function', 
         objs = []
         env['objs'] = objs
         env['ast_pre'] = []
-        info = mk_sig(I, ctx, 'd', shape, tracked=False, annotations=False)
+        info = mk_sig(I, ctx, 'd', shape, tracked=False, annotations=(mode == 'af_function_ua'))
+        env['def_info'] = info
         plain = world.plain_signature(I, info)
         UF_cls = ma.ns['UnknownForwards']
 
@@ -190,10 +196,24 @@ def make_runner(mode, shape=DEF_SHAPES[0], node='FunctionDef', kind='function', 
             env.setdefault('af_ast_returned', []).append(res)
             return res
 
-        if mode in ('af_function', 'forged'):
+        if mode in ('af_function', 'af_function_ua', 'forged'):
             I.call_hooks['_autoforwards:autoforwards_ast'] = af_ast_summary
 
-        if mode == 'af_function':
+        if mode == 'af_function_ua':
+            wrapped = new_obj('wrapped_target')
+            f = new_obj('func', slots={'__wrapped__': slot('func', 'wrapped', wrapped)})
+            env['f'] = f
+            env['sigs_to_discovery'] = []
+            prev = I.call_hooks['_autoforwards:autoforwards_ast']
+
+            def capture(interp_, clo, args, kwpairs):
+                env['sigs_to_discovery'].append(args[2] if len(args) > 2 else dict(kwpairs).get('sig'))
+                return prev(interp_, clo, args, kwpairs)
+            I.call_hooks['_autoforwards:autoforwards_ast'] = capture
+            for o in objs:
+                o.snapshot()
+            harness.run_unit(I, ma.ns['autoforwards_function'], [f, (), SymDict()], [], r)
+        elif mode == 'af_function':
             wrapped = new_obj('wrapped_target')
             sigobj = Opaque('a __signature__ value')
             f = new_obj('func', slots={'__wrapped__': slot('func', 'wrapped', wrapped), '__signature__': slot('func', 'signature', sigobj)})
@@ -225,6 +245,7 @@ def make_runner(mode, shape=DEF_SHAPES[0], node='FunctionDef', kind='function', 
                 call = new_obj('obj_call', 'method', slots=common('obj_call'), defaults={'__call__': MethodWrapper()})
                 call.defaults['__self__'] = None
                 obj = new_obj('obj', 'instance', slots=common('obj'), defaults={'__call__': call})
+                obj.truthy = z3.Bool('receiver_is_truthy')       # an instance of a user class: its truth value is the user's business
                 call.defaults['__self__'] = obj
                 call.defaults['__func__'] = new_obj('obj_call_func', 'function', slots=common('obj_call_func'), defaults={'__call__': MethodWrapper()})
             env['obj'] = obj
@@ -469,6 +490,22 @@ def make_runner(mode, shape=DEF_SHAPES[0], node='FunctionDef', kind='function', 
                 return Opaque('masked')
             I.call_hooks['_signatures:_mask'] = mk
             harness.run_unit(I, ma.ns['autoforwards_partial'], [par, (Opaque('outer arg'),), SymDict()], [], r)
+            env['first_log'] = list(log)
+            if r.outcome == 'return':
+                # the same partial object asked again after what its function forwards to has changed
+                env['inner_sig2'] = Opaque('autoforwards(par.func, par.args, {}) - second time')
+                inner_sig_holder = env
+                del log[:]
+
+                def af2(interp_, clo, a, kw):
+                    log.append(('autoforwards', list(a), list(kw)))
+                    return env['inner_sig2']
+                I.call_hooks['_autoforwards:autoforwards'] = af2
+                r2 = harness.PathResult()
+                harness.run_unit(I, ma.ns['autoforwards_partial'], [par, (), SymDict()], [], r2)
+                env['second'] = (r2.outcome, list(log))
+                del log[:]
+                log.extend(env['first_log'])
         elif mode == 'as_forged':
             spm = I.module('sigtools.specifiers')
             inst = new_obj('instance', 'instance')
@@ -515,6 +552,23 @@ def vcs(env, want):
             for n in env['ast_pre']:
                 ok = getattr(n, 'cls', None) in FUNCTION_NODES or not isinstance(n, SymNode)
                 out.append(VC(F_ASTPRE.full, [], z3.BoolVal(bool(ok)), F_ASTPRE.props))
+    if mode == 'af_function_ua':
+        if on(F_UA):
+            from .common import ua_denotes
+            msig = I.module('sigtools._signatures')
+            EmptyAnn = msig.ns['EmptyAnnotation']
+            f, info = env['f'], env['def_info']
+            for s_ in env['sigs_to_discovery']:
+                ps = s_._d['_parameters'].plist if isinstance(s_, Inst) and '_parameters' in s_._d else None
+                if ps is None or len(ps) != len(info.params):
+                    out.append(VC(F_UA.full + ':signature', [], z3.BoolVal(False), F_UA.props))
+                    continue
+                for p, o in zip(ps, info.params):
+                    raw = o._d['_annotation']
+                    h, den = ua_denotes(p._d['upgraded_annotation'], EmptyAnn)
+                    exp = z3.If(f.postponed, sym.EVALIN(raw.val, f.t), raw.val)
+                    out.append(VC(F_UA.full + ':%s' % o._d.get('_vf_tag', '?'), [], z3.And(h == raw.has, z3.Implies(raw.has, den == exp)), F_UA.props))
+        return out
     if mode == 'af_function':
         if r.outcome == 'raise' and on(F_RAISES):
             ok = z3.Or(is_unknown_forwards(I, r.exc), z3.BoolVal(origin_ok(r.exc, ('inspect.signature', 'getattr:'))))
@@ -640,6 +694,11 @@ def vcs(env, want):
                 # and only after the inner discovery was consulted
                 ok = ok and z3.is_true(z3.simplify(is_unknown_forwards(I, r.exc)))
             out.append(VC(PA_COMP.full, [], z3.BoolVal(bool(ok)), PA_COMP.props))
+            if 'second' in env and r.outcome == 'return':
+                oc2, log2 = env['second']
+                mk2 = [e for e in log2 if e[0] == '_mask']
+                ok2 = oc2 != 'return' or (len(mk2) == 1 and mk2[0][1][0] is env['inner_sig2'])
+                out.append(VC(PA_COMP.full + ':asked_again_uses_the_current_discovery', [], z3.BoolVal(bool(ok2)), PA_COMP.props))
     elif mode == 'as_forged':
         desc, inst = env['desc'], env['inst']
         now_in = inst in desc._d['currently_computing']
@@ -648,6 +707,9 @@ def vcs(env, want):
         if on(D_ATTR):
             own_attr_error = r.outcome == 'raise' and r.exc.typ is AttributeError
             out.append(VC(D_ATTR.full, [], z3.BoolVal(own_attr_error == env['pre_in']), D_ATTR.props))
+            if r.outcome == 'raise' and not own_attr_error:
+                raised = [e for e in ctx.events if e[0] == 'external-raise' and e[1] == 'forged_signature']
+                out.append(VC(D_ATTR.full + ':only_what_retrieval_raised:' + r.exc.typname, [], z3.BoolVal(bool(raised) and r.exc is raised[0][2]), D_ATTR.props))
     return out
 
 
